@@ -289,6 +289,89 @@ theorem Full_no_panic_lexer_partial (h1 : Full_rAttr_statement) (h2 : Full_rMatc
     · exact absurd hx (h1 cfg settings chunks hlex)
     · exact absurd hx (h2 cfg settings chunks hlex)
 
+/-! ## the two remaining sites from the lexeme facts (glue lemmas, not yet connected to the lexer) -/
+
+/-- lexeme fact for `rMatcher`: attribute name and value ranges are slices of the input (package inv's `TagValid`) -/
+def AttrsInInput (inp : Bytes) (as : List AttrOutline) : Prop :=
+  ∀ a ∈ as, (a.name.start ≤ a.name.end ∧ a.name.end ≤ inp.length) ∧ (a.value.start ≤ a.value.end ∧ a.value.end ≤ inp.length)
+
+/-- lexeme fact for `rAttr`: attribute raw ranges lie inside the lexeme's raw range -/
+def AttrsRawIn (raw : Range) (as : List AttrOutline) : Prop :=
+  ∀ a ∈ as, raw.start ≤ a.raw.start ∧ a.raw.start ≤ a.raw.end ∧ a.raw.end ≤ raw.end
+
+theorem attrsOf_some (inp : Bytes) (as : List AttrOutline) (h : AttrsInInput inp as) :
+    ∃ l, attrsOf inp as = some l ∧ l.map (·.2.2) = as := by
+  unfold attrsOf
+  induction as with
+  | nil => exact ⟨[], rfl, rfl⟩
+  | cons a as ih =>
+    obtain ⟨l, hl, hm⟩ := ih (fun b hb => h b (List.mem_cons_of_mem _ hb))
+    obtain ⟨h1, h2⟩ := h a List.mem_cons_self
+    refine ⟨(slice inp a.name.start a.name.end, slice inp a.value.start a.value.end, a) :: l, ?_, by simp [hm]⟩
+    have e1 : checkedSlice inp a.name = some (slice inp a.name.start a.name.end) := by
+      unfold checkedSlice; rw [if_pos h1]
+    have e2 : checkedSlice inp a.value = some (slice inp a.value.start a.value.end) := by
+      unfold checkedSlice; rw [if_pos h2]
+    simp only [List.mapM_cons]
+    rw [hl]
+    simp only [e1, e2]
+    rfl
+
+/-- **`rMatcher` is unreachable for a lexeme with `AttrsInInput`** -/
+theorem auxConv_some (inp : Bytes) (as : List AttrOutline) (sc : Bool) (h : AttrsInInput inp as) :
+    (auxConv ⟨inp, as, sc⟩).isSome = true := by
+  obtain ⟨l, hl, _⟩ := attrsOf_some inp as h
+  unfold auxConv
+  simp only [hl]
+  rfl
+
+theorem attrConv_mapM_some (rawBytes : Bytes) (rawR : Range) (hlen : rawBytes.length = rawR.end - rawR.start)
+    (attrs : List (Bytes × Bytes × AttrOutline)) (h : AttrsRawIn rawR (attrs.map (·.2.2))) :
+    ∃ l, attrs.mapM (attrConv rawBytes rawR.start) = some l := by
+  induction attrs with
+  | nil => exact ⟨[], rfl⟩
+  | cons a as ih =>
+    obtain ⟨l, hl⟩ := ih (fun b hb => h b (by simp only [List.map_cons]; exact List.mem_cons_of_mem _ hb))
+    obtain ⟨h1, h2, h3⟩ := h a.2.2 (by simp)
+    have hc : rawR.start ≤ a.2.2.raw.start ∧ a.2.2.raw.start ≤ a.2.2.raw.end ∧ a.2.2.raw.end - rawR.start ≤ rawBytes.length := by
+      refine ⟨h1, h2, ?_⟩
+      rw [hlen]; omega
+    cases hcv : attrConv rawBytes rawR.start a with
+    | none =>
+      unfold attrConv at hcv
+      dsimp only at hcv
+      rw [if_pos hc] at hcv
+      cases hcv
+    | some x =>
+      refine ⟨x :: l, ?_⟩
+      simp only [List.mapM_cons]
+      rw [hl, hcv]
+      rfl
+
+/-- **`rAttr` is unreachable for the token `to_token` builds from a lexeme with `AttrsRawIn`**: the token's raw
+bytes are the lexeme's raw slice, `src.start - base` is the lexeme's raw start -/
+theorem tokStartTag_no_rAttr (cfg : Cfg) (s : St) (name : Bytes) (attrs : List (Bytes × Bytes × AttrOutline))
+    (ns : Model.Ns) (sc : Bool) (rawBytes : Bytes) (rawR : Range) (prev : Nat)
+    (hlen : rawBytes.length = rawR.end - rawR.start) (h : AttrsRawIn rawR (attrs.map (·.2.2))) :
+    (tokStartTag cfg s name attrs ns sc rawBytes (srcOf prev rawR) prev).2.err ≠ some (.panic rAttr) := by
+  obtain ⟨l, hl⟩ := attrConv_mapM_some rawBytes rawR hlen attrs h
+  intro hh
+  unfold tokStartTag at hh
+  have hb : prev ≤ (srcOf prev rawR).start := by simp [srcOf]
+  have hoff : (srcOf prev rawR).start - prev = rawR.start := by simp [srcOf]
+  rw [if_pos hb, hoff, hl] at hh
+  dsimp only at hh
+  generalize (if 0 < s.disp.removedContent then
+    StartTag.apply { name := name, attributes := l, ns := nsEdit ns, selfClosing := sc, raw := rawBytes } (StartTagOp.mut MutOp.remove)
+    else { name := name, attributes := l, ns := nsEdit ns, selfClosing := sc, raw := rawBytes }) = st at hh
+  generalize runClosures cfg.elementScripts kElement Who.element (seeElement ns) Element.applyOps (srcOf prev rawR)
+      s.disp.element.forEachActive s (Element.new st s.disp.nextElementCanHaveContent) = r at hh
+  split at hh
+  · simp at hh
+  · split at hh
+    · simp only [Option.some.injEq, dispErr, dispMsg, rAttr, Err.panic.injEq] at hh; revert hh; decide
+    · simp at hh
+
 /-! ### non-vacuity -/
 
 example : LexCfg obsCfg := ⟨_, List.mem_cons_self, Or.inr (Or.inr rfl)⟩
